@@ -253,6 +253,12 @@ def named_family():
     wide = {"type": "record", "name": "Wide", "fields": [{"name": "vals", "type": {"type": "array", "items": "long"}}]}
     out.append([copy.deepcopy(narrow), copy.deepcopy(wide)])
     out.append(rec("R", ["null", copy.deepcopy(narrow), copy.deepcopy(wide)]))
+    # record branches with the SAME field names whose types differ in range (a shortcut by field names must still validate)
+    r32 = {"type": "record", "name": "Cents32", "fields": [{"name": "value", "type": "int"}]}
+    r64 = {"type": "record", "name": "Cents64", "fields": [{"name": "value", "type": "long"}]}
+    out.append([copy.deepcopy(r32), copy.deepcopy(r64)])
+    out.append(rec("R", ["null", copy.deepcopy(r32), copy.deepcopy(r64)]))
+    out.append(["null"])
     # {"type": "int"}-style wrapped primitives
     out.append(rec("R", {"type": "int"}, {"type": "string"}, {"type": "null"}))
     out.append({"type": "array", "items": {"type": "long"}})
